@@ -1,6 +1,7 @@
 import UrcuVerif.Wfs.Thms
 import UrcuVerif.Lfs.Thms
 import UrcuVerif.Lfs.Neg
+import UrcuVerif.Wfs.Neg
 /-!
 # C11 — stacks are LIFO: push / pop / pop_all lose nothing, duplicate nothing
 
@@ -8,111 +9,158 @@ import UrcuVerif.Lfs.Neg
 algorithm) as explicit-pc transition systems on x86-TSO (per-thread FIFO store buffers, flush =
 environment step, locked RMW needs an empty buffer), any number of threads, every interleaving,
 nodes recycled.  Statements only; invariants and helper lemmas are in `Wfs/Inv*.lean`,
-`Wfs/Thms.lean`, `Lfs/Inv*.lean`, `Lfs/Thms.lean`; the ABA witness in `Lfs/Neg.lean`.
+`Wfs/Thms.lean`, `Lfs/Inv*.lean`, `Lfs/Thms.lean`; the ABA witnesses in `Wfs/Neg.lean`, `Lfs/Neg.lean`.
 
 Linearisation points: push = the successful `xchg` (wfs) / `cmpxchg` (lfs) on `head`; pop = the
 successful `cmpxchg`, or the load of an empty head; pop_all = the `xchg`; empty = the load.
 Each of them is a step of the operation itself, and it appends to the ghost history `hist` one
 event carrying the result *computed from concrete memory*.
 
-Schemes proved: wfs — internal mutex, single consumer; lfs / rculfstack — internal mutex,
-single consumer, RCU-protected poppers with recycling only after a grace period (abstract
-`GpSpec` grace period).  Not modelled: wfs poppers under RCU (`C11_full`).
+Schemes proved, for both stacks (`Cfg.WF` = the three synchronisation techniques the headers
+document): internal mutex, single consumer, and RCU-protected poppers – any number of concurrent
+`__cds_wfs_pop_*` / `__cds_lfs_pop` callers inside read-side sections, no mutex, a handed-out node
+recycled (freed / re-initialised / re-pushed) only after a grace period that started after the
+hand-out (abstract `GpSpec` grace period: `gpStart`, `gpEnd` guarded by "every section begun
+before the start has ended").  The composition with the real grace-period implementation is by
+interface (DESIGN §3 item 6; C01 proves the guard for `synchronize_rcu()`).
 -/
 namespace UrcuVerif.C11
 open Lifo
 
 /-! ## wfstack -/
 
-/-- **wfs_refines_lifo**: in every reachable state the sequence of linearisation events with the
+/-- **wfs_refines_lifo** (internal mutex, single consumer, RCU-protected concurrent poppers): in
+every reachable state the sequence of linearisation events with the
 results the implementation computed is a legal sequential LIFO history ending in the abstract
 stack `abs`, and the concrete memory (head pointer, `next` fields, in-flight pushes with their
 buffered stores) represents exactly `abs`; every step is a stutter or the sequential operation
 of its event. -/
-theorem wfs_refines_lifo (c : Wfs.Cfg) {s : Wfs.State} (h : Wfs.Reach c s) :
+theorem wfs_refines_lifo (c : Wfs.Cfg) (wf : c.WF) {s : Wfs.State} (h : Wfs.Reach c s) :
     Valid s.hist s.abs ∧ Wfs.Chain s s.head s.abs ∧
     ∀ l s', Wfs.step c s l = some s' →
       (s'.hist = s.hist ∧ s'.abs = s.abs) ∨
       ∃ e, s'.hist = e :: s.hist ∧ e.res = (apply s.abs e.op).2 ∧ s'.abs = (apply s.abs e.op).1 :=
-  ⟨(Wfs.inv_reach c h).hist, (Wfs.inv_reach c h).chain, fun _ _ st => Wfs.step_refines c h st⟩
+  ⟨(Wfs.inv_reach c wf h).hist, (Wfs.inv_reach c wf h).chain, fun _ _ st => Wfs.step_refines c wf h st⟩
 
 /-- **each_node_popped_once** (wfs): every push of a node is matched by exactly one hand-out
 (pop or pop_all list) or the node is still in the stack, exactly once. -/
-theorem wfs_each_node_popped_once (c : Wfs.Cfg) {s : Wfs.State} (h : Wfs.Reach c s) (n : Nat) :
+theorem wfs_each_node_popped_once (c : Wfs.Cfg) (wf : c.WF) {s : Wfs.State} (h : Wfs.Reach c s) (n : Nat) :
     pushes n s.hist = outs n s.hist + s.abs.count n ∧ s.abs.count n ≤ 1 :=
-  ⟨conservation (Wfs.inv_reach c h).hist n, List.nodup_iff_count.1 (Wfs.inv_reach c h).nodup n⟩
+  ⟨conservation (Wfs.inv_reach c wf h).hist n, List.nodup_iff_count.1 (Wfs.inv_reach c wf h).nodup n⟩
 
 /-- **pop_all_returns_all_in_lifo_order_and_empties** (wfs) -/
-theorem wfs_pop_all_returns_all_in_lifo_order_and_empties (c : Wfs.Cfg) {s s' : Wfs.State}
+theorem wfs_pop_all_returns_all_in_lifo_order_and_empties (c : Wfs.Cfg) (wf : c.WF) {s s' : Wfs.State}
     (h : Wfs.Reach c s) (t : Nat) (st : Wfs.step c s (.popAll t) = some s') :
     s'.head = Wfs.END ∧ s'.abs = [] ∧ s'.priv t = s.abs ∧ s'.cur t = s.head ∧
     Wfs.Chain s' (s'.cur t) s.abs ∧
     s'.ret t = (if s.abs = [] then .null else .head s.head) :=
-  Wfs.popAll_result c h t st
+  Wfs.popAll_result c wf h t st
 
 /-- … and iterating over the returned head (`cds_wfs_first` / `cds_wfs_next_*`) visits exactly
 those nodes, in that order -/
-theorem wfs_iteration_exact (c : Wfs.Cfg) {s s' : Wfs.State} (h : Wfs.Reach c s) (t : Nat) (b : Bool)
+theorem wfs_iteration_exact (c : Wfs.Cfg) (wf : c.WF) {s s' : Wfs.State} (h : Wfs.Reach c s) (t : Nat) (b : Bool)
     (st : Wfs.step c s (.iterNext t b) = some s') (hadv : s'.cur t ≠ s.cur t) :
     ∃ r, s.priv t = s.cur t :: r ∧ s'.priv t = r ∧ Wfs.Chain s' (s'.cur t) r ∧
       s'.ret t = (if r = [] then .null else .node (s'.cur t) false) :=
-  Wfs.iter_exact c h t b st hadv
+  Wfs.iter_exact c wf h t b st hadv
 
 /-- **push_ret_consistent** (wfs): the old head the `xchg` returns is `END` iff the abstract
 stack was empty at that instant; `cds_wfs_push` returns `old_head != END`. -/
-theorem wfs_push_ret_consistent (c : Wfs.Cfg) {s s1 : Wfs.State} (h : Wfs.Reach c s) (t n : Nat)
+theorem wfs_push_ret_consistent (c : Wfs.Cfg) (wf : c.WF) {s s1 : Wfs.State} (h : Wfs.Reach c s) (t n : Nat)
     (hp : s.pc t = .pushX n) (st : Wfs.step c s (.pushX t) = some s1) :
     s1.abs = n :: s.abs ∧ s1.pc t = .pushSt n s.head ∧ ((s.head != Wfs.END) = !s.abs.isEmpty) ∧
     ∀ s2 s3, s2.pc t = .pushSt n s.head → Wfs.step c s2 (.pushSt t) = some s3 →
       s3.ret t = .flag (!s.abs.isEmpty) := by
-  obtain ⟨h1, h2, h3⟩ := Wfs.push_result c h t n hp st
+  obtain ⟨h1, h2, h3⟩ := Wfs.push_result c wf h t n hp st
   refine ⟨h1, h2, h3, ?_⟩
   intro s2 s3 hp2 st2
   rw [(Wfs.push_ret c t n s.head hp2 st2).1, h3]
 
 /-- `cds_wfs_empty` and a NULL pop agree with the abstract stack -/
-theorem wfs_empty_consistent (c : Wfs.Cfg) {s s' : Wfs.State} (h : Wfs.Reach c s) (t : Nat)
+theorem wfs_empty_consistent (c : Wfs.Cfg) (wf : c.WF) {s s' : Wfs.State} (h : Wfs.Reach c s) (t : Nat)
     (st : Wfs.step c s (.empty t) = some s') : s'.ret t = .flag s.abs.isEmpty ∧ s'.abs = s.abs :=
-  Wfs.empty_result c h t st
+  Wfs.empty_result c wf h t st
 
-theorem wfs_pop_null_iff_empty (c : Wfs.Cfg) {s s' : Wfs.State} (h : Wfs.Reach c s) (t : Nat) (b : Bool)
+theorem wfs_pop_null_iff_empty (c : Wfs.Cfg) (wf : c.WF) {s s' : Wfs.State} (h : Wfs.Reach c s) (t : Nat) (b : Bool)
     (hp : s.pc t = .popLd b) (hh : s.head = Wfs.END) (st : Wfs.step c s (.popLd t) = some s') :
     s.abs = [] ∧ s'.ret t = .null ∧ s'.abs = [] :=
-  Wfs.pop_null c h t b hp hh st
+  Wfs.pop_null c wf h t b hp hh st
 
 /-- **LAST_state_correct** (wfs): a successful pop returns the abstract top, and reports
 `CDS_WFS_STATE_LAST` iff it emptied the stack -/
-theorem wfs_LAST_state_correct (c : Wfs.Cfg) {s s' : Wfs.State} (h : Wfs.Reach c s) (t : Nat)
+theorem wfs_LAST_state_correct (c : Wfs.Cfg) (wf : c.WF) {s s' : Wfs.State} (h : Wfs.Reach c s) (t : Nat)
     (b : Bool) (h0 nx : Nat) (hp : s.pc t = .popCas b h0 nx) (hhd : s.head = h0)
     (st : Wfs.step c s (.popCas t) = some s') :
     s.abs = h0 :: s'.abs ∧ s'.ret t = .node h0 (nx == Wfs.END) ∧
     ((nx == Wfs.END) = true ↔ s'.abs = []) ∧ s'.head = nx :=
-  Wfs.pop_result c h t b h0 nx hp hhd st
+  Wfs.pop_result c wf h t b h0 nx hp hhd st
 
-/-- **no_aba** (wfs; internal mutex and single consumer) -/
-theorem wfs_no_aba (c : Wfs.Cfg) {s : Wfs.State} (h : Wfs.Reach c s) (t : Nat) (b : Bool) (h0 nx : Nat)
+/-- **no_aba** (wfs) under each documented scheme: internal mutex, single consumer, and RCU
+(technique 1 of `urcu/wfstack.h`: concurrent `__cds_wfs_pop_*` callers in read-side sections,
+handed-out nodes recycled only after a grace period): whenever a popper's
+`cmpxchg(&head, old_head, next)` finds `head` equal to the node it loaded, the `next` value it
+read from that node is still the node's successor – the node was not popped-and-re-pushed in
+between. -/
+theorem wfs_no_aba (c : Wfs.Cfg) (wf : c.WF) {s : Wfs.State} (h : Wfs.Reach c s) (t : Nat) (b : Bool) (h0 nx : Nat)
     (hp : s.pc t = .popCas b h0 nx) (hb : s.buf t = []) (hhd : s.head = h0) :
     ∃ l, s.abs = h0 :: l ∧ Wfs.Chain s nx l :=
-  Wfs.no_aba c h t b h0 nx hp hb hhd
+  Wfs.no_aba c wf h t b h0 nx hp hb hhd
 
 /-- **iteration_past_incomplete_push** (wfs): a NULL `next` is seen only while the push of that
 node is in flight; blocking variants wait (stutter), non-blocking variants return WOULDBLOCK and
 change nothing. -/
-theorem wfs_iteration_past_incomplete_push (c : Wfs.Cfg) {s : Wfs.State} (h : Wfs.Reach c s) (t : Nat)
+theorem wfs_iteration_past_incomplete_push (c : Wfs.Cfg) (wf : c.WF) {s : Wfs.State} (h : Wfs.Reach c s) (t : Nat)
     (hp : s.pc t = .idle) (hcur : s.cur t ≠ Wfs.END) (hrd : Wfs.rd s t (s.cur t) = 0) :
     (∃ u b, Wfs.PendC s u (s.cur t) b) ∧
     Wfs.step c s (.iterNext t true) = some s ∧
     ∃ s', Wfs.step c s (.iterNext t false) = some s' ∧ s'.ret t = .wouldblock ∧
       s'.cur t = s.cur t ∧ s'.priv t = s.priv t ∧ s'.abs = s.abs :=
-  Wfs.iter_incomplete c h t hp hcur hrd
+  Wfs.iter_incomplete c wf h t hp hcur hrd
 
-theorem wfs_pop_past_incomplete_push (c : Wfs.Cfg) {s : Wfs.State} (h : Wfs.Reach c s) (t : Nat)
+theorem wfs_pop_past_incomplete_push (c : Wfs.Cfg) (wf : c.WF) {s : Wfs.State} (h : Wfs.Reach c s) (t : Nat)
     (b : Bool) (h0 : Nat) (hp : s.pc t = .popSync b h0) (hrd : Wfs.rd s t h0 = 0) :
     (∃ u o, Wfs.PendC s u h0 o) ∧
     (b = true → Wfs.step c s (.popSync t) = some s) ∧
     (b = false → ∃ s', Wfs.step c s (.popSync t) = some s' ∧ s'.ret t = .wouldblock ∧ s'.pc t = .idle ∧
       s'.abs = s.abs ∧ s'.head = s.head) :=
-  Wfs.pop_incomplete c h t b h0 hp hrd
+  Wfs.pop_incomplete c wf h t b h0 hp hrd
+
+/-- the mechanism under RCU (wfs): a node a popper holds is never recycled under it – it is not
+free and not being re-pushed, the popper is inside a read-side section, and if the node was handed
+out meanwhile (to a concurrent popper / pop_all iterator) that happened after the section began -/
+theorem wfs_rcu_node_not_recycled (c : Wfs.Cfg) (wf : c.WF) {s : Wfs.State} (h : Wfs.Reach c s)
+    (t : Nat) (b : Bool) (h0 nx : Nat) (hp : s.pc t = .popCas b h0 nx ∨ s.pc t = .popSync b h0) :
+    s.nst h0 ≠ .free ∧ (∀ u, s.nst h0 ≠ .own u) ∧ (c.scheme = .rcu → s.cs t ≠ 0) ∧
+    (∀ τ, s.nst h0 = .retired τ → s.cs t < τ) :=
+  Wfs.rcu_protects c wf h t b h0 nx hp
+
+/-- **recycling only after a grace period** (wfs, RCU): a successful pop retires the node with the
+current time stamp; a retired node can be neither reclaimed nor re-pushed while any read-side
+section that began before the hand-out is still open; and a grace period (`gpEnd`) completes
+only when every open section – of any thread – began after the grace period started. -/
+theorem wfs_rcu_recycle_after_gp (c : Wfs.Cfg) (wf : c.WF) {s : Wfs.State} (h : Wfs.Reach c s) :
+    (∀ t b h0 nx s', s.pc t = .popCas b h0 nx → s.head = h0 → Wfs.step c s (.popCas t) = some s' →
+      s'.nst h0 = (if c.scheme = .rcu then .retired s.clock else .free) ∧ s.clock < s'.clock) ∧
+    (∀ t n τ, s.cs t ≠ 0 → s.nst n = .retired τ → s.cs t < τ →
+      Wfs.step c s (.reclaim n) = none ∧ ∀ u, Wfs.step c s (.pushBegin u n) = none) ∧
+    (∀ s', Wfs.step c s .gpEnd = some s' →
+      ∃ a, s.gpCur = some a ∧ s'.gpDone = max s.gpDone a ∧ ∀ t, s.cs t ≠ 0 → a ≤ s.cs t) :=
+  ⟨fun t b h0 nx _ hp hhd st => Wfs.pop_release c t b h0 nx hp hhd st,
+   fun t n τ h1 h2 h3 => Wfs.no_recycle_in_section c wf h t n τ h1 h2 h3,
+   fun _ st => Wfs.gp_end_spec c wf h st⟩
+
+/-- **Neg** (wfs): without any of the schemes (two concurrent unprotected poppers + immediate
+re-push) the algorithm is broken: explicit ABA run after which the head points to an already
+handed-out node, `head = END ↔ abs = []` fails, and the next pop delivers node 3 a second time
+(one push, two hand-outs). -/
+theorem wfs_unprotected_aba_witness :
+    (Wfs.run Wfs.Neg.cfgU Wfs.init Wfs.Neg.witness).map (fun s => (s.head, s.abs, s.nst 3, s.ret 1)) =
+      some (3, [], .free, .node 2 false) ∧
+    (Wfs.run Wfs.Neg.cfgU Wfs.init
+      (Wfs.Neg.witness ++ [.popBegin 1 true, .popLd 1, .popSync 1, .popCas 1])).map
+      (fun s => (s.ret 1, pushes 3 s.hist, outs 3 s.hist)) = some (.node 3 true, 1, 2) ∧
+    ¬ Wfs.Neg.cfgU.WF :=
+  ⟨Wfs.Neg.unprotected_pop_aba, Wfs.Neg.node_delivered_twice, Wfs.Neg.cfgU_not_wf⟩
 
 /-! ## lfstack / rculfstack -/
 
@@ -195,29 +243,47 @@ theorem lfs_unprotected_aba_witness :
 
 /-! ## full statement -/
 
-/-- the wfstack refinement for a scheme (what `wfs_refines_lifo` proves for mutex / single) -/
-def WfsRefines (reach : Wfs.State → Prop) : Prop :=
-  ∀ s, reach s → Valid s.hist s.abs ∧ Wfs.Chain s s.head s.abs
+/-- the wfstack refinement for a configuration: legal sequential LIFO history with the results
+computed from memory, memory represents the abstract stack, no duplicates, every step is a
+stutter or the sequential operation of its linearisation event, and no ABA at the pop cmpxchg -/
+def WfsRefines (c : Wfs.Cfg) : Prop :=
+  ∀ s, Wfs.Reach c s →
+    Valid s.hist s.abs ∧ Wfs.Chain s s.head s.abs ∧ s.abs.Nodup ∧
+    (∀ l s', Wfs.step c s l = some s' →
+      (s'.hist = s.hist ∧ s'.abs = s.abs) ∨
+      ∃ e, s'.hist = e :: s.hist ∧ e.res = (apply s.abs e.op).2 ∧ s'.abs = (apply s.abs e.op).1) ∧
+    (∀ t b h0 nx, s.pc t = .popCas b h0 nx → s.buf t = [] → s.head = h0 →
+      ∃ l, s.abs = h0 :: l ∧ Wfs.Chain s nx l)
 
-def LfsRefines (reach : Lfs.State → Prop) : Prop :=
-  ∀ s, reach s → Valid s.hist s.abs ∧ Lfs.Chain s s.head s.abs
+def LfsRefines (c : Lfs.Cfg) : Prop :=
+  ∀ s, Lfs.Reach c s →
+    Valid s.hist s.abs ∧ Lfs.Chain s s.head s.abs ∧ s.abs.Nodup ∧
+    (∀ l s', Lfs.step c s l = some s' →
+      (s'.hist = s.hist ∧ s'.abs = s.abs) ∨
+      ∃ e, s'.hist = e :: s.hist ∧ e.res = (apply s.abs e.op).2 ∧ s'.abs = (apply s.abs e.op).1) ∧
+    (∀ t h0 nx, s.pc t = .popCas h0 nx → s.head = h0 → ∃ l, s.abs = h0 :: l ∧ Lfs.Chain s nx l)
 
-/-- **C11_full**: everything above *plus* the wfstack with poppers under RCU read-side sections
-and node reuse after a grace period (`include/urcu/static/wfstack.h`, synchronisation
-technique 1), for a model `wfsRcuReach` of that scheme, *plus* the composition with the real
-grace-period implementation instead of the abstract `GpSpec` steps (C01).  Unproved part: no
-`Wfs` model of the RCU scheme was built (`wfsRcuReach` is a parameter); the layer composition
-is by interface (DESIGN §3 item 6). -/
-def C11_full (wfsRcuReach : Wfs.State → Prop) : Prop :=
-  (∀ c, WfsRefines (Wfs.Reach c)) ∧
-  (∀ c : Lfs.Cfg, c.WF → LfsRefines (Lfs.Reach c)) ∧
-  WfsRefines wfsRcuReach
+/-- **C11_full**: both stacks refine the sequential LIFO under **every** documented
+synchronisation scheme – internal mutex, single consumer, and poppers under RCU protection with
+node reuse only after a grace period (`Cfg.WF` excludes only the `unprotected` pseudo-scheme of
+the necessity witnesses) – for any number of threads and every interleaving with TSO delays; in
+particular the wfstack with concurrent `__cds_wfs_pop_*` callers inside read-side sections
+(`include/urcu/static/wfstack.h`, synchronisation technique 1), which is free of ABA.
+(The grace period is the abstract `GpSpec`; its composition with the real implementation is by
+interface, DESIGN §3 item 6.) -/
+def C11_full : Prop :=
+  (∀ c : Wfs.Cfg, c.WF → WfsRefines c) ∧ (∀ c : Lfs.Cfg, c.WF → LfsRefines c)
 
-/-- what is proved of `C11_full` -/
-theorem C11_partial :
-    (∀ c, WfsRefines (Wfs.Reach c)) ∧ (∀ c : Lfs.Cfg, c.WF → LfsRefines (Lfs.Reach c)) :=
-  ⟨fun c _ h => ⟨(wfs_refines_lifo c h).1, (wfs_refines_lifo c h).2.1⟩,
-   fun c wf _ h => ⟨(lfs_refines_lifo c wf h).1, (lfs_refines_lifo c wf h).2.1⟩⟩
+theorem C11_full_holds : C11_full :=
+  ⟨fun c wf _ h => ⟨(wfs_refines_lifo c wf h).1, (wfs_refines_lifo c wf h).2.1,
+      (Wfs.inv_reach c wf h).nodup, (wfs_refines_lifo c wf h).2.2,
+      fun t b h0 nx hp hb hhd => wfs_no_aba c wf h t b h0 nx hp hb hhd⟩,
+   fun c wf _ h => ⟨(lfs_refines_lifo c wf h).1, (lfs_refines_lifo c wf h).2.1,
+      (Lfs.inv_reach c wf h).nodup, (lfs_refines_lifo c wf h).2.2,
+      fun t h0 nx hp hhd => lfs_no_aba c wf h t h0 nx hp hhd⟩⟩
+
+/-- the RCU configuration of the wfstack is one of them -/
+example : ({ scheme := .rcu } : Wfs.Cfg).WF := by simp [Wfs.Cfg.WF]
 
 /-! ## non-vacuity: concrete reachable runs (executable `step`, checked by `decide`) -/
 
@@ -264,6 +330,48 @@ example : (Wfs.run wfsMutex Wfs.init wfsDemo2).map
     (fun s => (s.ret 0, s.priv 0, s.cur 0, s.nst 3, s.nst 2)) = some (.null, [], 1, .free, .free) := by decide
 /-- without the lock a second thread cannot pop -/
 example : Wfs.run wfsMutex Wfs.init [.popBegin 0 true] = none := by decide
+
+def wfsRcu : Wfs.Cfg := { scheme := .rcu }
+
+/-- wfs, RCU scheme, two concurrent poppers, no mutex (END = 1; nodes 2, 3, 4): the stack is
+[4, 3, 2]; poppers 5 and 6 both load head = 4 and next = 3 inside their sections; 5's cmpxchg
+succeeds (node 4, retired at time 3), 6's cmpxchg fails (head is 3 now) and its retry pops 3;
+node 4 cannot be recycled while the grace period is blocked by 6's section; after 6 leaves, the
+grace period ends, 4 is reclaimed and pushed again. -/
+def wfsRcuDemo : List Wfs.Label :=
+  [.pushBegin 1 2, .flush 1, .pushX 1, .pushSt 1, .flush 1,
+   .pushBegin 1 3, .flush 1, .pushX 1, .pushSt 1, .flush 1,
+   .pushBegin 1 4, .flush 1, .pushX 1, .pushSt 1, .flush 1,
+   .rlock 5, .rlock 6,
+   .popBegin 5 true, .popLd 5, .popSync 5,
+   .popBegin 6 true, .popLd 6, .popSync 6,
+   .popCas 5,                                        -- T5 pops 4
+   .runlock 5, .gpStart]
+
+/-- hypotheses of `wfs_no_aba` met by a popper under RCU with a concurrent popper at the same pc -/
+example : (Wfs.run wfsRcu Wfs.init (wfsRcuDemo.take 23)).map
+    (fun s => (s.pc 5, s.buf 5, s.head, s.abs)) = some (.popCas true 4 3, [], 4, [4, 3, 2]) := by decide
+example : (Wfs.run wfsRcu Wfs.init (wfsRcuDemo.take 23)).map
+    (fun s => (s.pc 6, s.buf 6, s.cs 5, s.cs 6, s.lock)) = some (.popCas true 4 3, [], 1, 2, none) := by decide
+example : (Wfs.run wfsRcu Wfs.init wfsRcuDemo).map
+    (fun s => (s.ret 5, s.abs, s.nst 4, s.cs 6, s.gpCur)) =
+    some (.node 4 false, [3, 2], .retired 3, 2, some 4) := by decide
+/-- the grace period cannot end, the node cannot be reclaimed / re-pushed under popper 6 -/
+example : Wfs.run wfsRcu Wfs.init (wfsRcuDemo ++ [.gpEnd]) = none := by decide
+example : Wfs.run wfsRcu Wfs.init (wfsRcuDemo ++ [.reclaim 4]) = none := by decide
+example : Wfs.run wfsRcu Wfs.init (wfsRcuDemo ++ [.pushBegin 1 4]) = none := by decide
+/-- popper 6's cmpxchg fails (pop-vs-pop), the retry returns 3 -/
+example : (Wfs.run wfsRcu Wfs.init (wfsRcuDemo ++ [.popCas 6, .popLd 6, .popSync 6, .popCas 6])).map
+    (fun s => (s.ret 6, s.abs, s.nst 3)) = some (.node 3 false, [2], .retired 5) := by decide
+/-- after popper 6 has left its section: grace period over, node 4 recycled and pushed again;
+pop_all (no section needed) + iteration hand out [4, 2] -/
+example : (Wfs.run wfsRcu Wfs.init (wfsRcuDemo ++ [.popCas 6, .popLd 6, .popSync 6, .popCas 6, .runlock 6,
+    .gpEnd, .reclaim 4, .pushBegin 1 4, .flush 1, .pushX 1, .pushSt 1, .flush 1, .popAll 7,
+    .iterNext 7 false])).map
+    (fun s => (s.priv 7, s.nst 4, s.nst 2, s.ret 7, s.gpDone)) =
+    some ([2], .retired 6, .limbo 7, .node 2 false, 4) := by decide
+/-- outside a section a thread cannot pop in the RCU scheme -/
+example : Wfs.run wfsRcu Wfs.init [.popBegin 0 true] = none := by decide
 
 def lfsRcu : Lfs.Cfg := { scheme := .rcu }
 
